@@ -119,7 +119,7 @@ def c10_document(E, with_groups=("none", "reactions+metabolites", "reactions+met
         m.objective = {m.reactions.DM_B: 1, r1: oc}
         direction = E.pick("direction", ["max", "min"])
         m.objective_direction = direction
-        m.metabolites.B.charge = E.pick("charge_B", [0, -2])
+        m.metabolites.B.charge = -2
         m.metabolites.P.charge = 1
         m.metabolites.B.formula = E.pick("formula_B", [None, "H2O"])
         for g in m.genes:
@@ -129,12 +129,24 @@ def c10_document(E, with_groups=("none", "reactions+metabolites", "reactions+met
         m.metabolites.B.annotation = {"kegg.compound": "C2", "sbo": "SBO:0000247"}
         m.reactions.EX_A.annotation = {"sbo": "SBO:0000627"}
         m.notes = {"k": "v"}
+        ids = E.pick("identifiers", ["plain", "awkward"])
+        if ids == "awkward":
+            # identifiers that need escaping in SBML (the default F_REPLACE functions), in every place they are referred to:
+            # species references, gene rules, flux objectives, group members
+            from cobra.manipulation import rename_genes
+            m.metabolites.B.id = "b-1.x"
+            m.reactions.R2.id = "R2-a(b)"
+            m.reactions.DM_B.id = "DM-b"
+            rename_genes(m, {"g2": "g2.1", "g3": "3-g"})
         grp = E.pick("groups", list(with_groups))
         if grp != "none":
+            r2 = m.reactions.get_by_id("R2-a(b)" if ids == "awkward" else "R2")
             m.add_groups([Group("G1", name="group one", kind="partonomy",
                                 members=[m.reactions.R1, m.metabolites.A] + ([m.genes.g1] if grp.endswith("genes") else [])),
-                          Group("G2", name="second", members=[m.reactions.R2], kind="collection")])
-        E.note(direction=direction, config_bounds=str(cfgb), bounds_kind=kind, groups=grp)
+                          Group("G-2" if ids == "awkward" else "G2", name="second", kind="collection",
+                                members=[r2, m.metabolites.get_by_id("b-1.x" if ids == "awkward" else "B")]
+                                + ([m.genes.get_by_id("3-g" if ids == "awkward" else "g3")] if grp.endswith("genes") else []))])
+        E.note(direction=direction, config_bounds=str(cfgb), bounds_kind=kind, groups=grp, identifiers=ids)
         a = observe(m)
         number = env.Float if E.symbolic else float
         try:
